@@ -55,8 +55,8 @@ def optstr(o):
 
 # ---------------------------------------------------------------------------------------------
 # Inputs of the repository's own tests that are outside the property's domain ("all conforming HTML
-# documents and fragments"): listed by exact text with the reason; they are still executed (totality)
-# but their verdict is not part of C03.
+# documents and fragments"): listed by exact text with the reason; they are not run by this check (totality on
+# arbitrary input is property C10); nothing is decided about them here.
 NONCONFORMING_TEST_INPUTS = {
     '<span method=GET></span>': 'method is not an attribute of span (3.2.6)',
     '<span selected="selected"></span>': 'selected is not an attribute of span',
